@@ -497,3 +497,160 @@ Proof.
     (split; [rewrite ?lookup_insert; eauto|]);
     (split; [intros k' Hk'; rewrite ?lookup_insert_ne by congruence; reflexivity|]); auto.
 Qed.
+
+Lemma id_table_lookup s p : id_table s !! p = pe_id <$> (sm_peers s !! p).
+Proof. unfold id_table. apply lookup_fmap. Qed.
+
+Lemma id_table_mk ph ps mt : id_table (MkSm ph ps mt) = pe_id <$> ps.
+Proof. reflexivity. Qed.
+
+(* Route Monitoring never touches the register, the set of up peers or their ids *)
+Lemma rm_sim r s p u :
+  let res := route_monitoring r s p u in
+  res.1.1 = r /\ id_table res.1.2 = id_table s /\ coarse (sm_phase res.1.2) = coarse (sm_phase s) /\
+  out_evs res.2 = match sm_peers s !! p, u with Some pe, Some u' => upd_evs (pe_id pe) u' | _, _ => [] end.
+Proof.
+  unfold route_monitoring. destruct (sm_peers s !! p) as [pe|] eqn:E; [|cbn; auto].
+  destruct u as [u|]; [|cbn; auto]. cbv zeta.
+  assert (Hp : id_table s !! p = Some (pe_id pe)) by (rewrite id_table_lookup, E; reflexivity).
+  set (ps1 := match is_eor u with Some f => <[p := MkPeer (pe_eor pe) (pe_pending pe ∖ {[f]}) (pe_id pe)]> (sm_peers s) | None => sm_peers s end).
+  set (lst := match is_eor u with Some _ => all_pending_empty ps1 | None => false end).
+  set (pe1 := match ps1 !! p with Some x => x | None => pe end).
+  set (ps2 := match first_ann_fam u with
+              | Some f => if pe_eor pe1 then <[p := MkPeer (pe_eor pe1) ({[f]} ∪ pe_pending pe1) (pe_id pe1)]> ps1 else ps1
+              | None => ps1 end).
+  assert (H1 : pe_id <$> ps1 = id_table s).
+  { subst ps1. destruct (is_eor u); [|reflexivity]. rewrite fmap_insert. cbn [pe_id]. apply insert_id, Hp. }
+  assert (Hpe1 : pe_id pe1 = pe_id pe).
+  { subst pe1. assert (Hl : (pe_id <$> ps1) !! p = Some (pe_id pe)) by (rewrite H1; exact Hp).
+    rewrite lookup_fmap in Hl. destruct (ps1 !! p); [injection Hl as ->|]; reflexivity. }
+  assert (H2 : pe_id <$> ps2 = id_table s).
+  { subst ps2. destruct (first_ann_fam u); [|exact H1]. destruct (pe_eor pe1); [|exact H1].
+    rewrite fmap_insert. cbn [pe_id]. rewrite H1, Hpe1. apply insert_id, Hp. }
+  destruct lst eqn:El.
+  - assert (He : is_Some (is_eor u)) by (subst lst; destruct (is_eor u); [eauto|discriminate]).
+    destruct (sm_phase s) eqn:Eph; cbn [fst snd sm_phase out_evs evs_of_update]; rewrite ?id_table_mk, ?Eph;
+      repeat split; try assumption; try reflexivity.
+    unfold upd_evs. rewrite (payloads_eor _ _ He). reflexivity.
+  - destruct (sm_phase s) eqn:Eph; cbn [fst snd sm_phase out_evs evs_of_update]; rewrite ?id_table_mk, ?Eph;
+      repeat split; try assumption; reflexivity.
+Qed.
+
+Lemma elem_of_term_ids s i :
+  i ∈ map (fun kv : pph * peer => pe_id kv.2) (map_to_list (sm_peers s)) <-> exists p, id_table s !! p = Some i.
+Proof.
+  rewrite elem_of_list_fmap. split.
+  - intros ([p pe] & -> & Hin). apply elem_of_map_to_list in Hin. exists p. rewrite id_table_lookup, Hin. reflexivity.
+  - intros [p Hp]. rewrite id_table_lookup in Hp. destruct (sm_peers s !! p) as [pe|] eqn:E; [|discriminate].
+    injection Hp as <-. exists (p, pe). split; [reflexivity|]. apply elem_of_map_to_list, E.
+Qed.
+
+(* the five ways a message moves the pair (session machine, ideal RIB) *)
+Inductive msim (r : reg) (rid : N) (s : sm) (m : msg) (k : N) (rb : irib) : reg * sm * outcome -> irib -> Prop :=
+| ms_quiet s' o : id_table s' = id_table s -> out_evs o = [] -> msim r rid s m k rb (r, s', o) rb
+| ms_up p e id r' s' o : m = MPeerUp p e -> find_or_register peer_match r (peer_query rid p) = (id, r') -> out_evs o = [] ->
+    (id_table s' = id_table s /\ is_Some (id_table s !! p) \/ id_table s' = <[p := id]> (id_table s) /\ id_table s !! p = None) ->
+    msim r rid s m k rb (r', s', o) rb
+| ms_down p i s' o : id_table s !! p = Some i -> id_table s' = delete p (id_table s) -> out_evs o = [EDown i None] ->
+    msim r rid s m k rb (r, s', o) (ideal_down rb (fun x => bool_decide (x = (k, p))))
+| ms_route p i u s' o : id_table s !! p = Some i -> id_table s' = id_table s -> out_evs o = upd_evs i u ->
+    msim r rid s m k rb (r, s', o) (ideal_update rb (k, p) u)
+| ms_term ms s' o : id_table s' = ∅ -> out_evs o = map (fun i => EDown i None) ms ->
+    (forall i, i ∈ ms <-> exists p, id_table s !! p = Some i) ->
+    msim r rid s m k rb (r, s', o) (ideal_down rb (fun x => bool_decide (x.1 = k /\ x.2 ∈ dom (id_table s)))).
+
+Lemma sm_istep r rid s m k rb :
+  let res := sm_step r rid s m in
+  let ir := istep k (coarse (sm_phase s)) (dom (id_table s)) rb m in
+  ir.1.1 = coarse (sm_phase res.1.2) /\ ir.1.2 = dom (id_table res.1.2) /\ msim r rid s m k rb res ir.2.
+Proof.
+  cbv zeta. destruct (sm_phase s) eqn:Eph.
+  - (* before Initiation *)
+    unfold sm_step. rewrite Eph. destruct m; cbn [coarse istep invalid with_metrics fst snd sm_phase]; rewrite ?Eph;
+      (split; [reflexivity|]); (split; [reflexivity|]); apply ms_quiet; reflexivity.
+  - (* Dumping *)
+    assert (Hl : live s) by (left; exact Eph). rewrite sm_step_live by exact Hl. cbn [coarse].
+    destruct m as [| |p|p e|p|p u]; cbn [live_step istep].
+    + cbn. rewrite Eph. repeat split. apply ms_quiet; reflexivity.
+    + destruct (terminate r s) as [[r' s'] o] eqn:Et. unfold terminate in Et. injection Et as <- <- <-. cbn [fst snd sm_phase coarse].
+      rewrite id_table_mk, fmap_empty, dom_empty_L. repeat split.
+      apply (ms_term _ _ _ _ _ _ (map (fun kv : pph * peer => pe_id kv.2) (map_to_list (sm_peers s)))).
+      * rewrite id_table_mk. apply fmap_empty.
+      * destruct (map _ (map_to_list (sm_peers s))); reflexivity.
+      * apply elem_of_term_ids.
+    + cbn. rewrite Eph. repeat split. apply ms_quiet; reflexivity.
+    + destruct (peer_up_spec r rid s p e) as [pe id r' E Ef|id r' E Ef].
+      * rewrite bool_decide_true by (apply elem_of_dom; rewrite id_table_lookup, E; eauto).
+        cbn. rewrite Eph. repeat split. eapply ms_up; [reflexivity|exact Ef|reflexivity|].
+        left. split; [reflexivity|]. rewrite id_table_lookup, E. eauto.
+      * assert (Hn : id_table s !! p = None) by (rewrite id_table_lookup, E; reflexivity).
+        rewrite bool_decide_false by (rewrite elem_of_dom, Hn; intros [? ?]; discriminate).
+        cbn [fst snd sm_phase]. rewrite Eph, id_table_mk, fmap_insert. cbn [pe_id coarse].
+        split; [reflexivity|]. split; [rewrite dom_insert_L; reflexivity|].
+        eapply ms_up; [reflexivity|exact Ef|reflexivity|]. right. split; [|exact Hn]. rewrite id_table_mk, fmap_insert. reflexivity.
+    + destruct (peer_down_spec r s p) as [pe E|E].
+      * assert (Hp : id_table s !! p = Some (pe_id pe)) by (rewrite id_table_lookup, E; reflexivity).
+        rewrite bool_decide_true by (apply elem_of_dom; eauto).
+        cbn [fst snd sm_phase]. rewrite Eph, id_table_mk, fmap_delete. cbn [coarse].
+        split; [reflexivity|]. split; [rewrite dom_delete_L; reflexivity|].
+        eapply ms_down; [exact Hp|rewrite id_table_mk, fmap_delete; reflexivity|reflexivity].
+      * assert (Hn : id_table s !! p = None) by (rewrite id_table_lookup, E; reflexivity).
+        rewrite bool_decide_false by (rewrite elem_of_dom, Hn; intros [? ?]; discriminate).
+        cbn. rewrite Eph. repeat split. apply ms_quiet; reflexivity.
+    + destruct (rm_sim r s p u) as (Hr & Ht & Hph & Ho). rewrite Eph in Hph. cbn [coarse] in Hph.
+      destruct (route_monitoring r s p u) as [[r' s'] o]. cbn [fst snd] in *. subst r'.
+      destruct (sm_peers s !! p) as [pe|] eqn:E.
+      * assert (Hp : id_table s !! p = Some (pe_id pe)) by (rewrite id_table_lookup, E; reflexivity).
+        destruct u as [u|].
+        -- rewrite bool_decide_true by (apply elem_of_dom; eauto). cbn [fst snd]. rewrite Ht, Hph. repeat split.
+           eapply ms_route; eassumption.
+        -- cbn [fst snd]. rewrite Ht, Hph. repeat split. apply ms_quiet; assumption.
+      * assert (Hn : id_table s !! p = None) by (rewrite id_table_lookup, E; reflexivity).
+        assert (Ho' : out_evs o = []) by (destruct u; exact Ho).
+        destruct u as [u|]; [rewrite bool_decide_false by (rewrite elem_of_dom, Hn; intros [? ?]; discriminate)|];
+          cbn [fst snd]; rewrite Ht, Hph; repeat split; apply ms_quiet; assumption.
+  - (* Updating: as Dumping *)
+    assert (Hl : live s) by (right; exact Eph). rewrite sm_step_live by exact Hl. cbn [coarse].
+    destruct m as [| |p|p e|p|p u]; cbn [live_step istep].
+    + cbn. rewrite Eph. repeat split. apply ms_quiet; reflexivity.
+    + destruct (terminate r s) as [[r' s'] o] eqn:Et. unfold terminate in Et. injection Et as <- <- <-. cbn [fst snd sm_phase coarse].
+      rewrite id_table_mk, fmap_empty, dom_empty_L. repeat split.
+      apply (ms_term _ _ _ _ _ _ (map (fun kv : pph * peer => pe_id kv.2) (map_to_list (sm_peers s)))).
+      * rewrite id_table_mk. apply fmap_empty.
+      * destruct (map _ (map_to_list (sm_peers s))); reflexivity.
+      * apply elem_of_term_ids.
+    + cbn. rewrite Eph. repeat split. apply ms_quiet; reflexivity.
+    + destruct (peer_up_spec r rid s p e) as [pe id r' E Ef|id r' E Ef].
+      * rewrite bool_decide_true by (apply elem_of_dom; rewrite id_table_lookup, E; eauto).
+        cbn. rewrite Eph. repeat split. eapply ms_up; [reflexivity|exact Ef|reflexivity|].
+        left. split; [reflexivity|]. rewrite id_table_lookup, E. eauto.
+      * assert (Hn : id_table s !! p = None) by (rewrite id_table_lookup, E; reflexivity).
+        rewrite bool_decide_false by (rewrite elem_of_dom, Hn; intros [? ?]; discriminate).
+        cbn [fst snd sm_phase]. rewrite Eph, id_table_mk, fmap_insert. cbn [pe_id coarse].
+        split; [reflexivity|]. split; [rewrite dom_insert_L; reflexivity|].
+        eapply ms_up; [reflexivity|exact Ef|reflexivity|]. right. split; [|exact Hn]. rewrite id_table_mk, fmap_insert. reflexivity.
+    + destruct (peer_down_spec r s p) as [pe E|E].
+      * assert (Hp : id_table s !! p = Some (pe_id pe)) by (rewrite id_table_lookup, E; reflexivity).
+        rewrite bool_decide_true by (apply elem_of_dom; eauto).
+        cbn [fst snd sm_phase]. rewrite Eph, id_table_mk, fmap_delete. cbn [coarse].
+        split; [reflexivity|]. split; [rewrite dom_delete_L; reflexivity|].
+        eapply ms_down; [exact Hp|rewrite id_table_mk, fmap_delete; reflexivity|reflexivity].
+      * assert (Hn : id_table s !! p = None) by (rewrite id_table_lookup, E; reflexivity).
+        rewrite bool_decide_false by (rewrite elem_of_dom, Hn; intros [? ?]; discriminate).
+        cbn. rewrite Eph. repeat split. apply ms_quiet; reflexivity.
+    + destruct (rm_sim r s p u) as (Hr & Ht & Hph & Ho). rewrite Eph in Hph. cbn [coarse] in Hph.
+      destruct (route_monitoring r s p u) as [[r' s'] o]. cbn [fst snd] in *. subst r'.
+      destruct (sm_peers s !! p) as [pe|] eqn:E.
+      * assert (Hp : id_table s !! p = Some (pe_id pe)) by (rewrite id_table_lookup, E; reflexivity).
+        destruct u as [u|].
+        -- rewrite bool_decide_true by (apply elem_of_dom; eauto). cbn [fst snd]. rewrite Ht, Hph. repeat split.
+           eapply ms_route; eassumption.
+        -- cbn [fst snd]. rewrite Ht, Hph. repeat split. apply ms_quiet; assumption.
+      * assert (Hn : id_table s !! p = None) by (rewrite id_table_lookup, E; reflexivity).
+        assert (Ho' : out_evs o = []) by (destruct u; exact Ho).
+        destruct u as [u|]; [rewrite bool_decide_false by (rewrite elem_of_dom, Hn; intros [? ?]; discriminate)|];
+          cbn [fst snd]; rewrite Ht, Hph; repeat split; apply ms_quiet; assumption.
+  - (* after Termination *)
+    unfold sm_step. rewrite Eph. destruct m; cbn [coarse istep invalid with_metrics fst snd sm_phase]; rewrite ?Eph;
+      (split; [reflexivity|]); (split; [reflexivity|]); apply ms_quiet; reflexivity.
+Qed.
